@@ -703,7 +703,7 @@ def run(ctx):
             ctx.sample({"value": repr(v), "graphson2": ser})
         ctx.sample({"value": 2 ** 31, "graphson2": mon.s2.serialize(2 ** 31)})
 
-    n = ctx.scale(30000, 4000000)
+    n = ctx.scale(30000, 2500000)
     for _ in range(n):
         v = gen_leaf(rng, G, util, 1)
         all_versions(v, versions=(1, 2, 3))
